@@ -365,9 +365,23 @@ def brace_end(src, k):
 def all_fns(src):
     """{name: (params text, header text, body text)} of every `fn` in src (first definition wins)"""
     out = {}
-    for m in re.finditer(r"\bfn\s+([A-Za-z_][A-Za-z0-9_]*)\s*(<[^>(]*>)?\s*\(", src):
+    for m in re.finditer(r"\bfn\s+([A-Za-z_][A-Za-z0-9_]*)\s*", src):
         name = m.group(1)
-        i = m.end() - 1
+        i = m.end()
+        if i < len(src) and src[i] == "<":
+            depth = 0
+            while True:
+                depth += (src[i] == "<") - (src[i] == ">")
+                if src[i] == "-" and src[i + 1] == ">":
+                    i += 1          # `->` inside generics does not close a bracket
+                    depth += 1
+                i += 1
+                if depth == 0:
+                    break
+            while src[i].isspace():
+                i += 1
+        if i >= len(src) or src[i] != "(":
+            continue
         depth = 0
         j = i
         while True:
@@ -658,10 +672,17 @@ class Tr:
             return self.expr(obj, env, lambda a, s: self.index(a, s, int(idx[1]), k))
         if t == "macro":
             _, name, args = e
-            if name != "ulps_eq" or len(args) != 2 or args[1][0] != "num" or args[1][1] not in ("0.0", "1.0"):
+            if name == "format":
+                return k('""', "str")
+            if name != "ulps_eq" or len(args) != 2:
                 self.err("macro %s! other than ulps_eq!(e, 0.0 | 1.0)" % name)
-            f = "is_zero" if args[1][1] == "0.0" else "is_one"
-            return self.expr(args[0], env, lambda a, s: k("(%s %s)" % (f, a), "bool") if s == "num" else self.err("ulps_eq! on a %s" % s))
+
+            def second(b, sb):
+                if b not in ("zero", "one"):
+                    self.err("ulps_eq!(e, w) where w is neither 0 nor 1")
+                f = "is_zero" if b == "zero" else "is_one"
+                return self.expr(args[0], env, lambda a, s: k("(%s %s)" % (f, a), "bool") if s == "num" else self.err("ulps_eq! on a %s" % s))
+            return self.expr(args[1], env, second)
         if t == "if":
             _, cond, th, el = e
             if el is None or not self.is_value_if(e):
@@ -780,10 +801,28 @@ class Tr:
                     return self.block(body, env2, lambda t, s, _e: k(t, s))
                 return self.expr(body, env2, k)
             return self.call_args(args, env, inline)
+        if name == "Err":
+            return k(self.fail(), self.ret)       # the error value: its text is not modelled
+        if path[0] == "verif":
+            return k("tt", "unit")                # verification hook: records the rejected value, no effect on the result
+        if self.mod.inline(name) and len(path) <= 2:
+            params, body = self.mod.inline(name)
+            if len(params) != len(args):
+                self.err("%s called with %d arguments" % (name, len(args)))
+
+            def inl(vals):
+                env2 = {}
+                for p_, (t, s) in zip(params, vals):
+                    env2[p_] = (t, s)
+                saved = self.kret
+                return self.block(body, env2, lambda t, s, _e: k(t, s))
+            return self.call_args(args, env, inl)
         return self.call_args(args, env, lambda vals: self.apply(full, path, name, vals, k))
 
     def apply(self, full, path, name, a, k):
         nums = lambda n: len(a) >= n and all(s == "num" for _, s in a[:n])
+        if full in ("V::zero", "V::one") and not a:
+            return k(name, "num")
         if name == "check_unit_interval" and nums(1):
             return k("(in_unit %s)" % a[0][0], "res")
         if name == "check_is_one" and nums(1):
@@ -987,6 +1026,9 @@ class Module:
         self.helpers = []
         self.active = []
 
+    def inline(self, name):
+        return getattr(self, "inlines", {}).get(name)
+
     def has(self, region, name):
         return name in self.fns[region] and name not in ("b", "d", "u", "a")
 
@@ -1048,8 +1090,80 @@ class Module:
             "Ltac gen_unfold := %s.\n" % unfold
 
 
+CHECKS_PRELUDE = '''(* GENERATED by tools/rs2v.py --checks from %s and %s - do not edit. *)
+From Coq Require Import List Bool.
+From SL Require Import Model.Num.
+
+Section ChkGen.
+Context {B : Fld}.
+Variable eps : F B.
+Notation V := (@V B).
+Notation is_zero := (is_zero eps).
+Notation is_one := (is_one eps).
+'''
+
+
+class Checks:
+    """src/approx_ext.rs and src/errors.rs: the tolerance predicates and the two checking functions.  Calls between
+    them are inlined (is_in_range is only ever called with the literals 0 and 1, which decides which of the model's
+    tolerance tests an `ulps_eq!` is)."""
+    ENTRY = [("g_is_one", "is_one"), ("g_is_zero", "is_zero"), ("g_in_unit_interval", "in_unit_interval"),
+             ("g_check_unit_interval", "check_unit_interval"), ("g_check_is_one", "check_is_one")]
+
+    def __init__(self, approx_path, errors_path):
+        self.paths = (approx_path, errors_path)
+        self.fns = {}
+        for p in (approx_path, errors_path):
+            src = strip_comments(open(p).read())
+            i = src.find("pub mod verif")
+            if i >= 0:
+                src = src[:i]
+            self.fns.update(all_fns(src))
+        self.inlines = {}
+        for name, (params, header, body) in self.fns.items():
+            ps = [n for n, _ in param_list(params)]
+            self.inlines[name] = (ps, P(lex(body)).block())
+
+    def inline(self, name):
+        return self.inlines.get(name)
+
+    def has(self, region, name):
+        return False
+
+    def render(self):
+        out = [CHECKS_PRELUDE % self.paths]
+        for g, f in self.ENTRY:
+            if f not in self.fns:
+                raise Unsupported("function %s not found" % f)
+            params, header, body = self.fns[f]
+            ps = param_list(params)
+            ret = "res" if "Result" in header else "bool"
+            tr = Tr(self, "top", g, ret)
+            env = {}
+            gparams = []
+            for pn, pt in ps:
+                if pn == "label":
+                    env[pn] = ('""', "str")
+                else:
+                    env[pn] = (pn, "num")
+                    gparams.append("(%s : V)" % pn)
+
+            def final(t, s, _env, tr=tr, ret=ret):
+                if s in (ret, "bool", "res"):
+                    return t
+                tr.err("body of sort %s" % s)
+            tr.kret = final
+            term = tr.block(P(lex(body)).block(), env, final)
+            out.append("(* fn %s *)\nDefinition %s %s : bool :=\n  %s.\n" % (f, g, " ".join(gparams), term))
+        out.append("End ChkGen.\n")
+        return "\n".join(out)
+
+
 if __name__ == "__main__":
     try:
+        if sys.argv[1] == "--checks":
+            sys.stdout.write(Checks(sys.argv[2], sys.argv[3]).render())
+            sys.exit(0)
         sys.stdout.write(Module(sys.argv[1]).render())
     except Unsupported as e:
         sys.stderr.write("rs2v: outside the translated subset: %s\n" % e)
